@@ -5,13 +5,24 @@ property oracles (the property's words in plain Python) on the implementation's 
 "For every hypergraph" = every object a user can hold.  A case is a small PROGRAM over up to three named objects
 (`prog`: construction, insertions, removals of hyperedges and nodes, `copy()`, `subhypergraph`, `clear()` and
 `project X` steps); every `project` step runs all projections on the object as it is at that moment and checks them
-against the content the history must have produced (tracked independently in plain Python)."""
+against the content the history must have produced (tracked independently in plain Python).
+
+Node labels are OBJECTS of any hashable type (ints, floats, bools, Fractions, numpy scalars, strings, bytes, tuples, nested
+tuples, frozensets).  A program holds ENCODED labels (JSON: ints and strings as they are, everything else as a one-key dict,
+see `enc` / `dec`); every use of a label in every call decodes it anew, so the implementation never sees the same label
+object twice, and one label may be presented by equal objects of different types (1, 1.0, True, Fraction(1), np.int64(1)).
+The harness itself never applies Python's `<` to labels: all its sorting goes through the total order `okey`, which agrees
+with Python's order wherever the implementation may sort (labels that share a hyperedge / a side)."""
 import copy
 import itertools
 import pickle
 import random
+import re
 import signal
+from collections import Counter
 from fractions import Fraction
+
+import numpy as np
 
 import hgxv
 
@@ -28,9 +39,19 @@ RULE = ("a case is a program over up to 3 objects of one class (Hypergraph or Di
         "remove_node(s) with keep_edges False/True, clear] and project, then every live object is projected). Contents: undirected: (thorough) every set of 1..4 distinct hyperedges "
         "(sizes 1-5) over a 5-node universe, all 5 nodes added (uncovered ones are isolated), hyperedge order shuffled, "
         "reached by route plain/detour/copy/copied/reproject so that the projected object ends with exactly that "
-        "content; (both tiers) random hypergraphs with 3-9 nodes, 1-10 hyperedges of size 1-5 with nested and "
-        "overlapping hyperedges injected and isolated nodes (3% larger: 11-15 nodes, 10-16+ hyperedges); labels per case from sparse ints / shifted ints / "
-        "negative and huge ints / strings (incl. '', 'E0', 'N1'); quick replaces the exhaustive scopes by random slices. "
+        "content (15%: plus a node labelled by the tuple of one of the hyperedges); (both tiers) random hypergraphs with 3-9 nodes, 1-10 hyperedges of size 1-5 with nested and "
+        "overlapping hyperedges injected and isolated nodes (3% larger: 11-15 nodes, 10-16+ hyperedges). LABELS per case: a universe of 1-5 GROUPS of "
+        "mutually comparable labels; every hyperedge (directed: every side) takes its nodes from one group, so that labels "
+        "which Python cannot compare never share a hyperedge (they are isolated nodes or live in other components). "
+        "One-group universes (65%): sparse / shifted / negative and huge ints / 0..n-1, strings (incl. '', 'E0', 'N1', 'E', "
+        "'N10', '0'), tuples of ints, tuples of strings, chains of frozensets, numbers of mixed type (ints, non-integral "
+        "floats, inf, > 2^53), bytes. Several groups (35%): a base group of small ints (= edge ids) or vertex-name-like "
+        "strings, TUPLE labels over the base group that are exactly the node tuples of hyperedges which are then inserted "
+        "(label == hyperedge tuple; directed: label == a side, label == the (source, target) pair) next to unsorted and "
+        "empty tuples, nested tuples equal to hyperedges made of tuple-labelled nodes, frozenset chains, labels of the other "
+        "scalar type, bytes, floats. Every label of every call is a freshly built equal object; in 40% of the cases equal "
+        "objects of OTHER types are mixed in (1 / 1.0 / True, Fraction, numpy int64 / float64 / str_); "
+        "quick replaces the exhaustive scopes by random slices. "
         "directed: (thorough) every set of 1..3 hyperedges with disjoint non-empty sides over 4 nodes; (both tiers) "
         "random ones with sides of size 1-3, some with overlapping sides, plus a stream with an empty side "
         "(correspondence of the ZeroDivisionError only). Every project step runs bipartite, clique (keep_isolated "
@@ -46,7 +67,12 @@ RULE = ("a case is a program over up to 3 objects of one class (Hypergraph or Di
 ASSUMPTIONS = ["hyperedges are duplicate-free node tuples, distinct, sizes 1..5 (directed: the Jaccard claims need a "
                "non-empty union, i.e. non-empty sides)",
                "thresholds: integers >= 1 for intersection, fractions in (0,1] for Jaccard (passed to the code as floats)",
-               "labels are mapped to their rank in sorted order before they reach the model",
+               "labels are hashable and the labels of one hyperedge (directed: of one side) are mutually comparable and "
+               "totally ordered by Python's `<` (the containers store tuple(sorted(.))): numbers of any type with "
+               "numbers, strings with strings, bytes with bytes, tuples with tuples of the same make, frozensets only in "
+               "chains; None is no label (networkx refuses it); NaN is no label (it is not equal to itself)",
+               "labels are mapped to their rank in the total order `okey` (numbers < strings < bytes < tuples < frozensets, "
+               "inside a class as Python orders them) before they reach the model",
                "the content an object must have after a history (add/remove of nodes and hyperedges, copy, "
                "subhypergraph, clear) is tracked by a plain-Python set model of the documented container semantics; "
                "histories avoid remove_node(keep_edges=True) where it would create an empty hyperedge and, directed, "
@@ -56,7 +82,9 @@ TRUSTED = ["float division i/u of two small ints is the correctly rounded quotie
            "as float(Fraction(i, u)))",
            "networkx Graph/DiGraph: add_node/add_edge/add_nodes_from store vertices, symmetric (Graph) or one-way "
            "(DiGraph) adjacency and attribute dicts as modelled",
-           "itertools.combinations / chain enumerate all index-increasing sub-tuples"]
+           "itertools.combinations / chain enumerate all index-increasing sub-tuples",
+           "Python's hash / == of numbers of different types (1 == 1.0 == True == Fraction(1) == np.int64(1)) and of "
+           "tuples / frozensets built from them; sorted() on mutually comparable labels"]
 
 INT_S = [1, 2, 3]
 JAC_S = [Fraction(1, 4), Fraction(1, 3), Fraction(1, 2), Fraction(2, 3), Fraction(1)]
@@ -86,6 +114,143 @@ def guarded(f, *a, **k):
 
 
 # ------------------------------------------------------------------------------------------
+# labels: total order, encoding, fresh equal objects
+
+def okey(x):
+    """total order on labels (and on tuples of labels = hyperedges); agrees with Python's `<` on numbers, on strings,
+    on bytes, on tuples of such and on chains of frozensets; never raises"""
+    if isinstance(x, str):
+        return (1, str(x))
+    if isinstance(x, bytes):
+        return (2, x)
+    if isinstance(x, (tuple, list)):
+        return (3, tuple(okey(y) for y in x))
+    if isinstance(x, (frozenset, set)):
+        return (4, len(x), tuple(sorted(okey(y) for y in x)))
+    if isinstance(x, np.generic):
+        x = x.item()
+    if isinstance(x, (int, float, Fraction)) and x == x:
+        return (0, x)
+    return (9, repr(x))
+
+
+def osorted(xs):
+    return sorted(xs, key=okey)
+
+
+def stable(x):
+    """text that identifies a listing of labels / hyperedges, the same in every process (no set order, no hash seed)"""
+    return repr(okey(x))
+
+
+def enc(x):
+    """the JSON form of a label"""
+    if isinstance(x, (bool, np.bool_)):
+        return {"b": int(x)}
+    if isinstance(x, np.integer):
+        return {"i64": int(x)}
+    if isinstance(x, np.floating):
+        return {"f64": repr(float(x))}
+    if isinstance(x, np.str_):
+        return {"u": str(x)}
+    if isinstance(x, (int, str)):
+        return x
+    if isinstance(x, float):
+        return {"x": repr(x)}
+    if isinstance(x, Fraction):
+        return {"q": [x.numerator, x.denominator]}
+    if isinstance(x, bytes):
+        return {"y": x.decode("latin1")}
+    if isinstance(x, tuple):
+        return {"t": [enc(y) for y in x]}
+    if isinstance(x, frozenset):
+        return {"s": [enc(y) for y in osorted(x)]}
+    raise TypeError(f"no label: {x!r}")
+
+
+def dec(j):
+    """a FRESHLY built Python object for an encoded label (ints beyond the small-int cache, run-time strings, new tuples)"""
+    if isinstance(j, bool):
+        return j
+    if isinstance(j, int):
+        return int(str(j))
+    if isinstance(j, str):
+        return "".join(list(j)) if len(j) > 1 else j
+    if isinstance(j, float):
+        return float(repr(j))
+    if isinstance(j, dict) and len(j) == 1:
+        (k, v), = j.items()
+        if k == "t":
+            return tuple(dec(y) for y in v)
+        if k == "s":
+            return frozenset(dec(y) for y in v)
+        if k == "x":
+            return float(v)
+        if k == "b":
+            return bool(v)
+        if k == "q":
+            return Fraction(int(v[0]), int(v[1]))
+        if k == "y":
+            return v.encode("latin1")
+        if k == "i64":
+            return np.int64(v)
+        if k == "f64":
+            return np.float64(float(v))
+        if k == "u":
+            return np.str_(v)
+    raise ValueError(f"not an encoded label: {j!r}")
+
+
+def present(rng, x, alts):
+    """encoding of an object equal to the label x (same hash): for the kinds listed in `alts` sometimes an object of
+    ANOTHER type (1 -> 1.0 / True / Fraction(1) / np.int64(1), 'a' -> np.str_('a'), 2.5 -> Fraction(5, 2)); members of
+    frozensets in another order"""
+    if isinstance(x, tuple):
+        return {"t": [present(rng, y, alts) for y in x]}
+    if isinstance(x, frozenset):
+        ys = osorted(x)
+        rng.shuffle(ys)
+        return {"s": [present(rng, y, alts) for y in ys]}
+    if alts and rng.random() < 0.4:
+        if isinstance(x, str):
+            if "np" in alts:
+                return {"u": x}
+        elif isinstance(x, (int, float)) and not isinstance(x, bool):
+            opts = []
+            finite = x not in (float("inf"), -float("inf"))
+            integral = finite and x == int(x)
+            try:
+                as_float = float(x) == x
+            except OverflowError:
+                as_float = False
+            if "float" in alts and as_float and not isinstance(x, float):
+                opts.append({"x": repr(float(x))})
+            if "float" in alts and isinstance(x, float) and integral:
+                opts.append(int(x))
+            if "bool" in alts and x in (0, 1):
+                opts.append({"b": int(x)})
+            if "frac" in alts and finite:
+                f = Fraction(x)
+                opts.append({"q": [f.numerator, f.denominator]})
+            if "np" in alts:
+                if integral and -2 ** 63 <= x < 2 ** 63:
+                    opts.append({"i64": int(x)})
+                if as_float:
+                    opts.append({"f64": repr(float(x))})
+            if opts:
+                return rng.choice(opts)
+    return enc(x)
+
+
+def hashable(x):
+    try:
+        hash(x)
+        return True
+    except TypeError:
+        return False
+
+
+# ------------------------------------------------------------------------------------------
 # canonical forms
 
 def attr1(d, name):
@@ -100,7 +265,7 @@ def attr1(d, name):
 
 def canon_nx(g, directed, vname, vattr="bipartite"):
     """(sorted vertices with attribute, sorted edges with weight)"""
-    vs = sorted((vname(v), attr1(a, vattr)) for v, a in g.nodes(data=True))
+    vs = sorted(((vname(v), attr1(a, vattr)) for v, a in g.nodes(data=True)), key=repr)
     es = []
     for u, v, a in g.edges(data=True):
         x, y = vname(u), vname(v)
@@ -144,7 +309,7 @@ def parse_model_graph(vtxt, atxt, directed, vparse):
                 sym_ok = False
             if u <= v:
                 es.append((u, v, a))
-    return sorted(vs), sorted(es, key=repr), sym_ok
+    return sorted(vs, key=repr), sorted(es, key=repr), sym_ok
 
 
 def graphs_agree(model, impl):
@@ -191,27 +356,66 @@ def weight_is(w, val):
     return not isinstance(w, (str, tuple, bool)) and float(w) == float(val)
 
 
+def he_of(x):
+    """the hyperedge a table value stands for: its node tuple in canonical order; None when it is no tuple of labels"""
+    if not isinstance(x, tuple) or not all(hashable(y) for y in x):
+        return None
+    return tuple(osorted(x))
+
+
+def bipartite_reading(g, tab, nodes, E, node_side):
+    """None when, with `node_side` as the vertices that stand for nodes, the graph and the id table say what the
+    property says; else what is wrong"""
+    V = list(g.nodes())
+    nv = [v for v in V if v in node_side]
+    ev = [v for v in V if v not in node_side]
+    if any(not hashable(tab[v]) for v in nv) or Counter(tab[v] for v in nv) != Counter(nodes) or \
+            any(he_of(tab[v]) is None for v in ev) or Counter(he_of(tab[v]) for v in ev) != Counter(E):
+        return "bipartite: id table does not map the vertices one-to-one onto the nodes and the hyperedges"
+    for a in nv:
+        for b in ev:
+            if g.has_edge(a, b) != (tab[a] in tab[b]):
+                return (f"bipartite: vertex {a} (node {tab[a]!r}) and vertex {b} (hyperedge {tab[b]!r}) are "
+                        f"{'joined' if g.has_edge(a, b) else 'not joined'}")
+    if g.number_of_edges() != sum(len(e) for e in E):
+        return "bipartite: there are edges that do not join a node vertex with a hyperedge vertex"
+    return None
+
+
 def oracle_bipartite(viol, nodes, E, res):
+    """one vertex per node and one per hyperedge, joined exactly when the node belongs to the hyperedge, the id table
+    maps every vertex back to its node or hyperedge.  A table value that is BOTH a node label and a hyperedge tuple does
+    not say which of the two its vertex stands for: the `bipartite` attribute decides, and when that reading fails every
+    other reading of the ambiguous vertices is tried before a violation is reported (the property does not name sides)."""
     if res[0] != "ok":
         return viol(f"bipartite_projection raised {res[1]}")
     g, tab = res[1]
     V = list(g.nodes())
-    if sorted(map(repr, V)) != sorted(map(repr, tab)) or len(V) != len(nodes) + len(E):
+    if set(V) != set(tab) or len(tab) != len(V) or len(V) != len(nodes) + len(E):
         return viol(f"bipartite: vertices {sorted(map(str, V))}, id table keys {sorted(map(str, tab))}: the table must "
                     f"have exactly the vertices as keys, one per node and one per hyperedge ({len(nodes) + len(E)})")
-    vals = list(tab.values())
-    nv = [v for v in V if not isinstance(tab[v], tuple)]
-    ev = [v for v in V if isinstance(tab[v], tuple)]
-    if sorted(map(repr, (tab[v] for v in nv))) != sorted(map(repr, nodes)) or \
-            sorted(tuple(sorted(tab[v])) for v in ev) != sorted(E) or len(vals) != len(nodes) + len(E):
-        return viol("bipartite: id table does not map the vertices one-to-one onto the nodes and the hyperedges")
-    for a in nv:
-        for b in ev:
-            if g.has_edge(a, b) != (tab[a] in tab[b]):
-                return viol(f"bipartite: vertex {a} (node {tab[a]!r}) and vertex {b} (hyperedge {tab[b]!r}) are "
-                            f"{'joined' if g.has_edge(a, b) else 'not joined'}")
-    if g.number_of_edges() != sum(len(e) for e in E):
-        return viol("bipartite: there are edges that do not join a node vertex with a hyperedge vertex")
+    nset, eset = set(nodes), set(E)
+    sure_n, sure_e, amb = [], [], []
+    for v in V:
+        x = tab[v]
+        is_n = hashable(x) and x in nset
+        is_e = he_of(x) is not None and he_of(x) in eset
+        if is_n and is_e:
+            amb.append(v)
+        elif is_e:
+            sure_e.append(v)
+        else:
+            sure_n.append(v)        # a value that is neither fails the reading below
+    attr = [v for v in amb if g.nodes[v].get("bipartite") != 1]
+    first = bipartite_reading(g, tab, nodes, E, set(sure_n) | set(attr))
+    if first is None:
+        return
+    if 0 < len(amb) <= 10:
+        for r in range(len(amb) + 1):
+            for pick in itertools.combinations(amb, r):
+                if bipartite_reading(g, tab, nodes, E, set(sure_n) | set(pick)) is None:
+                    return
+    return viol(first)
 
 
 def oracle_clique(viol, nodes, E, res, keep):
@@ -241,8 +445,8 @@ def oracle_line(viol, E, res, dist, s, weighted, directed):
     if set(g.nodes()) != set(range(m)) or set(tab) != set(range(m)) or len(tab) != m:
         return viol(f"{name}: vertices {sorted(g.nodes(), key=repr)} / id table keys {sorted(tab, key=repr)}, "
                     f"expected one vertex per hyperedge 0..{m - 1}")
-    canon = (lambda e: (tuple(sorted(e[0])), tuple(sorted(e[1])))) if directed else (lambda e: tuple(sorted(e)))
-    if sorted(canon(tab[i]) for i in range(m)) != sorted(E):
+    canon = (lambda e: (tuple(osorted(e[0])), tuple(osorted(e[1])))) if directed else (lambda e: tuple(osorted(e)))
+    if Counter(canon(tab[i]) for i in range(m)) != Counter(E):
         return viol(f"{name}: the id table does not list the hyperedges one-to-one")
     want = {}
     for i in range(m):
@@ -275,8 +479,8 @@ def oracle_simplicial(viol, E, res):
     for e in E:
         for r in range(1, len(e) + 1):
             for sub in itertools.combinations(e, r):
-                if tuple(sorted(sub)) not in S:
-                    return viol(f"simplicial_complex lacks the subset {tuple(sorted(sub))!r} of hyperedge {e!r}")
+                if tuple(osorted(sub)) not in S:
+                    return viol(f"simplicial_complex lacks the subset {tuple(osorted(sub))!r} of hyperedge {e!r}")
     for k in S:
         if len(k) > 0 and not any(set(k) <= set(e) for e in E):
             return viol(f"simplicial_complex contains {k!r}, which is below no hyperedge")
@@ -294,8 +498,8 @@ def as_edge(kind, e):
 
 def canon_edge(kind, e):
     if kind == "d":
-        return (tuple(sorted(e[0])), tuple(sorted(e[1])))
-    return tuple(sorted(e))
+        return (tuple(osorted(e[0])), tuple(osorted(e[1])))
+    return tuple(osorted(e))
 
 
 def members(kind, e):
@@ -304,6 +508,29 @@ def members(kind, e):
 
 def esize(kind, e):
     return len(e[0]) + len(e[1]) if kind == "d" else len(e)
+
+
+def map_edge(kind, e, f):
+    if kind == "d":
+        return (tuple(f(x) for x in e[0]), tuple(f(x) for x in e[1]))
+    return tuple(f(x) for x in e)
+
+
+def map_op(op, kind, f):
+    """the op with f applied to every label in it (f = dec: encoded program -> objects; f = present: objects -> program)"""
+    op = list(op)
+    name = op[0]
+    if name in ("ctor", "edges", "rms"):
+        op[2] = [map_edge(kind, e, f) for e in op[2]]
+    elif name in ("edge", "rm"):
+        op[2] = map_edge(kind, op[2], f)
+    elif name in ("nodes", "rmnodes"):
+        op[2] = [f(x) for x in op[2]]
+    elif name in ("node", "rmnode"):
+        op[2] = f(op[2])
+    elif name == "sub":
+        op[3] = [f(x) for x in op[3]]
+    return op
 
 
 class Content:
@@ -326,7 +553,7 @@ class Content:
         self.edges.remove(canon_edge(self.kind, e))
 
     def incident(self, n):
-        return sorted(e for e in self.edges if n in members(self.kind, e))
+        return osorted(e for e in self.edges if n in members(self.kind, e))
 
     def remove_node(self, n, keep):
         inc = self.incident(n)
@@ -351,7 +578,7 @@ class Content:
 
 
 def track(T, kind, op):
-    """effect of one op of a program on the tracked contents T (name -> Content)"""
+    """effect of one op (labels are objects) of a program on the tracked contents T (name -> Content)"""
     name, X = op[0], op[1]
     if name == "new":
         T[X] = Content(kind)
@@ -398,7 +625,7 @@ def weight_of(kind, e):
 
 
 def perform(H, kind, weighted, op):
-    """the same op on the real objects H (name -> Hypergraph / DirectedHypergraph)"""
+    """the same op (labels are objects) on the real objects H (name -> Hypergraph / DirectedHypergraph)"""
     from hypergraphx import Hypergraph, DirectedHypergraph
     cls = DirectedHypergraph if kind == "d" else Hypergraph
     name, X = op[0], op[1]
@@ -468,7 +695,9 @@ def legacy_prog(case):
 
 
 def run_program(ctx, drv, case):
-    """executes the history on real objects and on the tracker; every `project` step is a checked case"""
+    """executes the history on real objects and on the tracker; every `project` step is a checked case.  The program
+    holds encoded labels: they are decoded once for the tracker and ONCE MORE for the implementation, so that the real
+    objects never receive the same label object in two calls."""
     if "prog" not in case:
         case = legacy_prog(case)
     kind = "d" if case.get("kind") == "d" else "u"
@@ -494,9 +723,9 @@ def run_program(ctx, drv, case):
             if ctx.too_many():
                 return
             continue
-        track(T, kind, op)
+        track(T, kind, map_op(op, kind, dec))
         try:
-            perform(H, kind, weighted, op)
+            perform(H, kind, weighted, map_op(op, kind, dec))
         except Timeout:
             raise
         except Exception as ex:  # noqa: BLE001
@@ -529,7 +758,7 @@ def thresholds(E):
     for s in JAC_S:
         yield "jaccard", "j", s, float(s)
     # the extra one depends on the content only, so that a replay sees the same threshold
-    yield random.Random(repr(E)).choice(EXTRA_S)
+    yield random.Random(stable(E)).choice(EXTRA_S)
 
 
 def spoil(res):
@@ -564,16 +793,73 @@ def same_line_graph(directed, a, b):
         canon_nx(a[1][0], directed, repr) == canon_nx(b[1][0], directed, repr) and a[1][1] == b[1][1]))
 
 
+def ranks_of(nodes):
+    """label -> rank in the total order `okey`"""
+    return {x: i for i, x in enumerate(osorted(set(nodes)))}
+
+
+def rk(rank, x):
+    try:
+        return rank.get(x, -1)
+    except TypeError:
+        return -1
+
+
+VERTEX_NAME = re.compile(r"^[NE]\d+$")
+
+
+def leaf_types(x):
+    if isinstance(x, (tuple, frozenset)):
+        out = {"tuple" if isinstance(x, tuple) else "frozenset"}
+        for y in x:
+            out |= leaf_types(y)
+        return out
+    if isinstance(x, np.generic):
+        return {"numpy"}
+    return {type(x).__name__}
+
+
+def count_labels(ctx, kind, nodes, E):
+    """distribution of the kinds of labels over the projected objects"""
+    types = set()
+    for x in nodes:
+        types |= leaf_types(x)
+    for t in sorted(types):
+        ctx.count("labels_with_" + t)
+    classes = {okey(x)[0] for x in nodes}
+    if len(classes) > 1:
+        ctx.count("labels_of_several_incomparable_classes")
+    if any(isinstance(x, str) and VERTEX_NAME.match(x) for x in nodes):
+        ctx.count("labels_like_vertex_names")
+    if any(isinstance(x, (int, np.integer)) and not isinstance(x, bool) and 0 <= x < len(E) for x in nodes):
+        ctx.count("labels_equal_to_hyperedge_ids")
+    if kind == "u":
+        eset = set(E)
+        coll = [x for x in nodes if isinstance(x, tuple) and x in eset]
+        if coll:
+            ctx.count("label_is_a_hyperedge_tuple")
+            pos = {e: i for i, e in enumerate(E)}
+            if any(x in e and pos[e] > pos[x] for x in coll for e in E):
+                ctx.count("label_is_a_hyperedge_tuple_and_member_of_a_later_hyperedge")
+    else:
+        sides = {e[0] for e in E} | {e[1] for e in E}
+        if any(isinstance(x, tuple) and x in sides for x in nodes):
+            ctx.count("label_is_a_side_tuple")
+        if any(isinstance(x, tuple) and x in set(E) for x in nodes):
+            ctx.count("label_is_a_hyperedge_pair")
+
+
 def project_undirected(ctx, drv, vcase, case, h, want, tags):
     from hypergraphx.representations import projections as P
     from hypergraphx.representations.simplicial_complex import simplicial_complex
     from hypergraphx.measures import edge_similarity as ES
     nodes = list(h.get_nodes())
-    E = [tuple(sorted(e)) for e in h.get_edges()]
+    raw = list(h.get_edges())
+    E = [tuple(osorted(e)) for e in raw]
     if not content_ok(ctx, vcase, "u", nodes, E, want):
         return
     _VAL.clear()
-    rank = {x: i for i, x in enumerate(sorted(set(nodes)))}
+    rank = ranks_of(nodes)
 
     def viol(what):
         ctx.violation(vcase, what)
@@ -582,8 +868,8 @@ def project_undirected(ctx, drv, vcase, case, h, want, tags):
     expect = [("plain", "ok")]
 
     # the table line_graph reads: the per-node incident lists of THIS object (a second piece of container state)
-    inc = guarded(lambda: [[tuple(sorted(e)) for e in h.get_incident_edges(n)] for n in nodes])
-    if inc[0] == "ok" and all(x in rank for l in inc[1] for e in l for x in e) and all(len(e) for l in inc[1] for e in l):
+    inc = guarded(lambda: [[tuple(osorted(e)) for e in h.get_incident_edges(n)] for n in nodes])
+    if inc[0] == "ok" and all(rk(rank, x) >= 0 for l in inc[1] for e in l for x in e) and all(len(e) for l in inc[1] for e in l):
         lines.append("inc " + hgxv.enc_listss([[[rank[x] for x in e] for e in l] for l in inc[1]]))
         expect.append(("inc",))
 
@@ -593,8 +879,9 @@ def project_undirected(ctx, drv, vcase, case, h, want, tags):
     lines.append("bip")
     if res[0] == "ok":
         g, tab = res[1]
-        t = sorted((str(k), ("e",) + tuple(rank.get(x, -1) for x in v) if isinstance(v, tuple) else ("n", rank.get(v, -1)))
-                   for k, v in tab.items())
+        # the model's table: N<i> -> node, E<j> -> hyperedge (members in the order of the tuple)
+        t = sorted((str(k), ("n", rk(rank, v)) if str(k).startswith("N") else
+                    ("e",) + (tuple(rk(rank, x) for x in v) if isinstance(v, tuple) else (-1,))) for k, v in tab.items())
         expect.append(("bip", canon_nx(g, False, str), t))
     else:
         expect.append(("exc",))
@@ -604,7 +891,7 @@ def project_undirected(ctx, drv, vcase, case, h, want, tags):
         res = guarded(P.clique_projection, h, keep_isolated=keep)
         oracle_clique(viol, nodes, E, res, keep)
         lines.append(f"clique {int(keep)}")
-        expect.append(("graph", canon_nx(res[1], False, lambda v: rank.get(v, -1)), False) if res[0] == "ok" else ("exc",))
+        expect.append(("graph", canon_nx(res[1], False, lambda v: rk(rank, v)), False) if res[0] == "ok" else ("exc",))
         spoil(res)
     # line graph
     for dist, dcode, s, s_arg in thresholds(E):
@@ -615,7 +902,7 @@ def project_undirected(ctx, drv, vcase, case, h, want, tags):
             if res[0] == "ok":
                 g, tab = res[1]
                 expect.append(("line", canon_nx(g, False, lambda v: v if isinstance(v, int) else -1), False,
-                               [[rank.get(x, -1) for x in tab.get(i, ())] for i in range(len(tab))]))
+                               [[rk(rank, x) for x in tab.get(i, ())] for i in range(len(tab))]))
             else:
                 expect.append(("exc",))
             spoil(res)
@@ -625,10 +912,10 @@ def project_undirected(ctx, drv, vcase, case, h, want, tags):
     if not same_line_graph(False, guarded(h.to_line_graph), guarded(P.line_graph, h)):
         viol("Hypergraph.to_line_graph() differs from line_graph(h)")
     # simplicial complex
-    res = guarded(lambda: [tuple(sorted(e)) for e in simplicial_complex(h).get_edges()])
+    res = guarded(lambda: [tuple(osorted(e)) for e in simplicial_complex(h).get_edges()])
     oracle_simplicial(viol, E, res)
     lines.append("simp")
-    expect.append(("simp", sorted([rank.get(x, -1) for x in e] for e in res[1])) if res[0] == "ok" else ("exc",))
+    expect.append(("simp", sorted([rk(rank, x) for x in e] for e in res[1])) if res[0] == "ok" else ("exc",))
     # similarity functions on all pairs of hyperedges
     for a, b in itertools.combinations_with_replacement(E[:5], 2):
         ri = guarded(ES.intersection, set(a), set(b))
@@ -645,7 +932,7 @@ def project_undirected(ctx, drv, vcase, case, h, want, tags):
 
     overlapping = any(set(a) & set(b) for a, b in itertools.combinations(E, 2))
     nontrivial = overlapping and sorted(nodes, key=repr) != sorted(range(len(nodes)), key=repr)
-    ctx.case(repr((nodes, E, tags)), nontrivial, sample=case)
+    ctx.case(stable((nodes, E, tags)), nontrivial, sample=case)
     ctx.count("undirected_cases")
     ctx.count("hyperedges_%d" % min(len(E), 6))
     for t in tags:
@@ -658,17 +945,18 @@ def project_undirected(ctx, drv, vcase, case, h, want, tags):
         ctx.count("with_nested_hyperedges")
     if nodes and isinstance(nodes[0], str):
         ctx.count("string_labels")
+    count_labels(ctx, "u", nodes, E)
     compare(ctx, drv, vcase, lines, expect)
 
 
 def project_directed(ctx, drv, vcase, case, h, want, tags):
     from hypergraphx.representations import projections as P
-    E = [(tuple(sorted(e[0])), tuple(sorted(e[1]))) for e in h.get_edges()]
+    E = [(tuple(osorted(e[0])), tuple(osorted(e[1]))) for e in h.get_edges()]
     nodes = list(h.get_nodes())
     if not content_ok(ctx, vcase, "d", nodes, E, want):
         return
     _VAL.clear()
-    rank = {x: i for i, x in enumerate(sorted(set(nodes)))}
+    rank = ranks_of(nodes)
     empty_side = any(len(e[0]) == 0 or len(e[1]) == 0 for e in E)
 
     def viol(what):
@@ -687,7 +975,7 @@ def project_directed(ctx, drv, vcase, case, h, want, tags):
             if res[0] == "ok":
                 g, tab = res[1]
                 expect.append(("line", canon_nx(g, True, lambda v: v if isinstance(v, int) else -1), True,
-                               [[[rank.get(x, -1) for x in tab.get(i, ((), ()))[side]] for i in range(len(tab))]
+                               [[[rk(rank, x) for x in tab.get(i, ((), ()))[side]] for i in range(len(tab))]
                                 for side in (0, 1)]))
             else:
                 expect.append(("exc",))
@@ -700,7 +988,7 @@ def project_directed(ctx, drv, vcase, case, h, want, tags):
         viol("DirectedHypergraph.to_line_graph() differs from directed_line_graph(h)")
     overlapping = any(set(a[1]) & set(b[0]) for a in E for b in E if a != b)
     nontrivial = overlapping and sorted(nodes, key=repr) != sorted(range(len(nodes)), key=repr)
-    ctx.case(repr(("d", nodes, E, tags)), nontrivial, sample=case)
+    ctx.case(stable(("d", nodes, E, tags)), nontrivial, sample=case)
     ctx.count("directed_cases")
     for t in tags:
         ctx.count("directed_" + t)
@@ -708,6 +996,7 @@ def project_directed(ctx, drv, vcase, case, h, want, tags):
         ctx.count("weighted_hypergraph_cases")
     if empty_side:
         ctx.count("directed_with_empty_side")
+    count_labels(ctx, "d", nodes, E)
     compare(ctx, drv, vcase, lines, expect)
 
 
@@ -791,50 +1080,246 @@ def check_case(ctx, drv, case):
         signal.signal(signal.SIGALRM, old)
 
 
+
 # ------------------------------------------------------------------------------------------
-# generators: contents
+# generators: label universes.  A universe is a list of GROUPS; the labels of one group are mutually comparable
+# (Python's `<` is a strict total order on them); a hyperedge (directed: a side) takes its nodes from ONE group.
+
+STR_POOL = [chr(97 + i) * k for i in range(12) for k in (1, 2)] + \
+           ["E0", "E1", "N0", "N1", "", "E", "N", "N10", "E01", "EN", "NE1", "e0", "n1", "0", "1", "E-1", "N 0",
+            "\u00c90", "\u4e2d", "n\u0303", "(1, 2)"]
+NAME_POOL = ["N0", "E0", "N1", "E1", "E", "N", "a", "b", "E2", "N2", "0", "1"]
+
 
 def label_pool(rng, n):
+    """n labels of ONE group"""
     r = rng.random()
-    if r < 0.3:
-        pool = [chr(97 + i) * k for i in range(12) for k in (1, 2)] + ["E0", "E1", "N0", "N1", ""]
-        return rng.sample(pool, n)
-    if r < 0.5:
+    if r < 0.22:
+        return rng.sample(STR_POOL, n)
+    if r < 0.36:
         off = rng.randint(1, 50)
         return rng.sample(range(off, off + n), n)
-    if r < 0.6:
+    if r < 0.45:
         return rng.sample(range(n), n)
-    if r < 0.68:
+    if r < 0.52:
         return rng.sample(list(range(-6, 7)) + [10 ** 9 + 7, 2 ** 63, 2 ** 63 + 1, -10 ** 12], n)
-    return rng.sample(range(0, 60), n)
+    if r < 0.68:
+        return rng.sample(range(0, 60), n)
+    if r < 0.76:     # tuples of ints (grid coordinates), the empty tuple, tuples of other lengths
+        return rng.sample([(a, b) for a in range(4) for b in range(4)] + [(), (0,), (1,), (0, 1, 2), (3, 0, 0, 1)], n)
+    if r < 0.81:     # tuples of strings
+        return rng.sample([(a,) for a in "abN"] + [(a, b) for a in ("a", "N0", "E1", "") for b in ("b", "E0", "N0")]
+                          + [(), ("a", "b", "c")], n)
+    if r < 0.88:     # a chain of frozensets (the only frozensets Python's sorted() can order)
+        elems = rng.sample([0, 1, 2, 3, 5, 8, "a", "b", "N0", "E0", (1, 2), 2.5, 10 ** 6, "", -1, 7, 9, 11], n + 1)
+        start = rng.randint(0, 1)
+        return [frozenset(elems[:k]) for k in range(start, start + n)]
+    if r < 0.95:     # numbers of several types: ints, non-integral floats, infinities, beyond 2^53
+        return rng.sample(list(range(-3, 9)) + [0.5, 1.5, 2.5, -0.5, 7.25, float("inf"), -float("inf"), 2 ** 53 + 1,
+                                                  1e300, 2 ** 63, 0.1], n)
+    return rng.sample([bytes([97 + i]) * k for i in range(8) for k in (1, 2)] + [b"N0", b"E0", b"", b"E1"], n)
 
 
-def spare_labels(labels):
-    """labels that are in no content: for temporary items and for items of the OTHER object"""
-    if any(isinstance(x, str) for x in labels):
-        return [s for s in ("zx", "zy", "zz", "zw") if s not in labels][:3]
-    m = max(labels) if labels else 0
-    return [m + 1, m + 4, m + 9]
+def leaves(x):
+    if isinstance(x, (tuple, frozenset)):
+        for y in x:
+            yield from leaves(y)
+    else:
+        yield x
 
+
+def spares_for(group, taken, want=3):
+    """labels that are in no content, comparable with every label of the group: for temporary items and for items of
+    the OTHER object"""
+    x0 = group[0]
+    ls = [y for x in group for y in leaves(x)]
+    stringy = any(isinstance(y, str) for y in ls)
+    ints = [int(y) for y in ls if isinstance(y, (int, float)) and y == y and abs(y) < 10 ** 15]
+    m = max(ints + [0])
+
+    def leaf_spares():
+        if isinstance(x0, bytes):
+            for i in itertools.count():
+                yield b"z" + bytes([120 + i % 3]) + b"y" * (i // 3)
+        elif stringy or isinstance(x0, str):
+            for i in itertools.count():
+                yield "z" + "xyzw"[i % 4] + "q" * (i // 4)
+        else:
+            for i in itertools.count(1):
+                yield m + i * i
+
+    out = []
+    if isinstance(x0, frozenset):
+        top = frozenset(max(group, key=len))
+        for s in leaf_spares():
+            top = top | {s}                      # the chain goes on
+            if top not in taken:
+                out.append(top)
+            if len(out) == want:
+                return out
+    if isinstance(x0, tuple):
+        # a tuple of the group made longer: a proper extension compares by length, and its new members repeat an old one
+        base = max(group, key=len)
+        filler = base[-1] if base else 0
+        s = base
+        while len(out) < want:
+            s = s + (filler,)
+            if s not in taken:
+                out.append(s)
+        return out
+    gen = leaf_spares()
+    while len(out) < want:
+        s = next(gen)
+        if s not in taken:
+            out.append(s)
+    return out
+
+
+def with_spares(groups):
+    taken = {x for g in groups for x in g}
+    U = []
+    for g in groups:
+        sp = spares_for(g, taken)
+        taken |= set(sp)
+        U.append({"g": osorted(g), "spare": sp})
+    return U
+
+
+def one_group_universe(rng, n):
+    return with_spares([label_pool(rng, n)]), []
+
+
+def multi_universe(rng, n, directed):
+    """2-5 groups: a base group B of scalars, tuple labels over B that ARE node tuples of hyperedges (returned as `forced`
+    hyperedges), nested ones, frozenset chains, scalars of the other type, bytes"""
+    n = max(n, 4)
+    if rng.random() < 0.6:
+        k = rng.randint(2, min(5, n - 1))
+        B = rng.sample(range(0, 7), k)                    # small ints: equal to hyperedge ids and positions
+        other = lambda: rng.sample(NAME_POOL, rng.randint(1, 3))      # noqa: E731
+        if rng.random() < 0.3:
+            B += rng.sample([0.5, 2.5, float("inf"), -1.5], 1)
+    else:
+        k = rng.randint(2, min(5, n - 1))
+        B = rng.sample(NAME_POOL, k)
+        other = lambda: rng.sample(range(0, 7), rng.randint(1, 3))    # noqa: E731
+    B = osorted(B)
+    groups, forced = [B], []
+    left = n - len(B)
+
+    def sorted_sub(G, lo=1, hi=3):
+        return tuple(osorted(rng.sample(G, rng.randint(lo, min(hi, len(G))))))
+
+    # tuple labels over B
+    T = []
+    for _ in range(rng.randint(1, 3)):
+        t = sorted_sub(B)
+        if t not in T:
+            T.append(t)
+            if directed:
+                rest = [x for x in B if x not in t] or list(B)
+                o = tuple(rng.sample(rest, rng.randint(1, min(2, len(rest)))))
+                forced.append((t, o) if rng.random() < 0.5 else (o, t))      # label == a side of a hyperedge
+            else:
+                forced.append(t)                                                # label == the hyperedge's node tuple
+    for t in ([()] if rng.random() < 0.3 else []) + \
+            ([tuple(reversed(T[0]))] if len(T[0]) > 1 and rng.random() < 0.4 else []):
+        if t not in T:
+            T.append(t)                                   # distractors: the empty tuple, an unsorted tuple
+    groups.append(T)
+    left -= len(T)
+    kinds = ["nested", "chain", "other", "bytes", "chain"]
+    rng.shuffle(kinds)
+    for kd in kinds:
+        if left <= 0 and rng.random() < 0.6:
+            break
+        if kd == "nested":
+            # labels that are hyperedges made of tuple-labelled nodes / (directed) that are (source, target) pairs
+            TT = []
+            nonempty = [t for t in T if t]
+            if directed:
+                a, b = sorted_sub(B, 1, 2), sorted_sub(B, 1, 2)
+                TT.append((a, b))
+                forced.append((a, b))                     # label == the hyperedge itself
+            if len(nonempty) >= 1 and (not directed or rng.random() < 0.5):
+                tt = tuple(osorted(rng.sample(T, rng.randint(1, min(2, len(T))))))
+                if tt not in TT:
+                    TT.append(tt)
+                    if directed:
+                        forced.append((tt, tuple(rng.sample(B, 1))))
+                    else:
+                        forced.append(tt)
+            if TT:
+                groups.append(TT)
+                left -= len(TT)
+        elif kd == "chain":
+            elems = rng.sample(list(dict.fromkeys(list(B) + ["a", 9, (1, 2), "N0"])), rng.randint(1, 3))
+            start = rng.randint(0, 1)
+            ch = [frozenset(elems[:j]) for j in range(start, len(elems) + 1)]
+            if ch and all(c not in g for g in groups for c in ch):
+                groups.append(ch)
+                left -= len(ch)
+        elif kd == "other":
+            o = [x for x in other() if all(x not in g for g in groups)]
+            if o:
+                groups.append(o)
+                left -= len(o)
+        elif kd == "bytes":
+            groups.append(rng.sample([b"a", b"b", b"N0", b"E0", b""], rng.randint(1, 2)))
+            left -= len(groups[-1])
+    return with_spares(groups), forced
+
+
+def make_universe(rng, n, directed):
+    if rng.random() < 0.35:
+        return multi_universe(rng, n, directed)
+    return one_group_universe(rng, n)
+
+
+def pick_group(rng, groups, least=1):
+    """a group with at least `least` labels, chosen with probability proportional to its size"""
+    cand = [g for g in groups if len(g) >= least] or [g for g in groups if g]
+    return rng.choices(cand, weights=[len(g) for g in cand])[0]
+
+
+def group_with(groups, x):
+    for g in groups:
+        if x in g:
+            return g
+    return None
+
+
+ALTS = [[]] * 12 + [["float", "bool"]] * 3 + [["frac"]] + [["np"]] * 2 + [["float", "bool", "np"]] * 2
+
+
+# ------------------------------------------------------------------------------------------
+# generators: contents
 
 def gen_undirected(rng):
     big = rng.random() < 0.03        # a few larger ones: two-digit vertex names and ids
     n = rng.randint(11, 15) if big else rng.randint(3, 9)
-    labels = label_pool(rng, n)
+    U, forced = make_universe(rng, n, False)
+    groups = [u["g"] for u in U]
+    labels = [x for g in groups for x in g]
     edges = []
     for _ in range(rng.randint(10, 16) if big else rng.randint(1, 10)):
-        size = min(n, rng.choice([1, 2, 2, 3, 3, 4, 5]))
-        e = tuple(rng.sample(labels, size))
+        g = pick_group(rng, groups)
+        size = min(len(g), rng.choice([1, 2, 2, 3, 3, 4, 5]))
+        e = tuple(rng.sample(g, size))
         edges.append(e)
         r = rng.random()
         if r < 0.25 and size > 1:
             edges.append(tuple(rng.sample(e, rng.randint(1, size - 1))))          # nested
         elif r < 0.5:
-            extra = [x for x in labels if x not in e]
+            extra = [x for x in g if x not in e]
             keep = rng.sample(e, rng.randint(1, size))
             add = rng.sample(extra, min(len(extra), rng.randint(0, 2)))
             if 1 <= len(keep) + len(add) <= 5:
                 edges.append(tuple(keep + add))                                    # overlapping
+    for f in forced:
+        if rng.random() < 0.85:
+            f = tuple(rng.sample(f, len(f)))
+            edges.insert(rng.randint(0, len(edges)), f)
     seen, out = set(), []
     for e in edges:
         if frozenset(e) not in seen:
@@ -844,43 +1329,56 @@ def gen_undirected(rng):
     iso = [x for x in labels if x not in covered and rng.random() < 0.7]
     nodes = [x for x in labels if x in covered and rng.random() < 0.5] + iso
     rng.shuffle(nodes)
-    return {"kind": "u", "nodes": nodes, "edges": out, "labels": labels}
+    return {"kind": "u", "nodes": nodes, "edges": out, "U": U}
 
 
 def gen_directed(rng, empty_side=False):
     big = rng.random() < 0.03
     n = rng.randint(9, 12) if big else rng.randint(3, 8)
-    labels = label_pool(rng, n)
+    U, forced = make_universe(rng, n, True)
+    groups = [u["g"] for u in U]
+    labels = [x for g in groups for x in g]
     edges = []
     for _ in range(rng.randint(9, 14) if big else rng.randint(1, 8)):
         a = rng.randint(0 if empty_side and rng.random() < 0.4 else 1, 3)
         b = rng.randint(0 if empty_side and rng.random() < 0.4 else 1, 3)
         if a + b == 0:
             a = 1
-        if rng.random() < 0.1:
-            src, tgt = rng.sample(labels, min(a, n)), rng.sample(labels, min(b, n))  # sides may overlap
+        g1 = pick_group(rng, groups, 2)
+        g2 = g1 if rng.random() < 0.75 else pick_group(rng, groups)
+        if g1 is not g2 or rng.random() < 0.1:
+            src, tgt = rng.sample(g1, min(a, len(g1))), rng.sample(g2, min(b, len(g2)))  # sides may overlap
         else:
-            pick = rng.sample(labels, min(n, a + b))
+            pick = rng.sample(g1, min(len(g1), a + b))
             src, tgt = pick[:a], pick[a:]
             if not tgt and b > 0:
                 src, tgt = pick[:-1], pick[-1:]
+        if not src and not tgt:
+            continue
+        if not empty_side and (not src or not tgt):
+            continue
         edges.append((tuple(src), tuple(tgt)))
         if rng.random() < 0.4 and edges:
             f = rng.choice(edges)
             if f[1]:
-                extra = rng.sample(labels, rng.randint(0, 1))
+                gf = group_with(groups, f[1][0])
+                extra = rng.sample(gf, rng.randint(0, 1))
                 src2 = tuple(dict.fromkeys(list(rng.sample(f[1], rng.randint(1, len(f[1])))) + extra))
-                tgt2 = tuple(x for x in rng.sample(labels, rng.randint(1, 2)) if x not in src2)
+                g3 = pick_group(rng, groups)
+                tgt2 = tuple(x for x in rng.sample(g3, min(len(g3), rng.randint(1, 2))) if x not in src2)
                 if tgt2 or empty_side:
                     edges.append((src2, tgt2))
+    for f in forced:
+        if rng.random() < 0.85:
+            edges.insert(rng.randint(0, len(edges)), (tuple(rng.sample(f[0], len(f[0]))), tuple(rng.sample(f[1], len(f[1])))))
     seen, out = set(), []
     for e in edges:
         k = (frozenset(e[0]), frozenset(e[1]))
         if k not in seen:
             seen.add(k)
             out.append(e)
-    iso = [x for x in labels if rng.random() < 0.2]
-    return {"kind": "d", "nodes": iso, "edges": out, "labels": labels}
+    iso = [x for x in labels if rng.random() < (0.2 if len(groups) == 1 else 0.5)]
+    return {"kind": "d", "nodes": iso, "edges": out, "U": U}
 
 
 def small_undirected(rng, universe=5, max_edges=4):
@@ -904,58 +1402,94 @@ def small_directed(universe=4, max_edges=3):
 
 def instantiate(rng, combo, universe, directed):
     lab = label_pool(rng, universe)
-    lab_sorted = sorted(lab)          # keep the abstract order so that every abstract case is a distinct concrete one
+    lab_sorted = osorted(lab)         # keep the abstract order so that every abstract case is a distinct concrete one
     combo = list(combo)
     rng.shuffle(combo)
+    groups = [lab_sorted]
+    extra = []
+    if rng.random() < 0.15:
+        # one more node whose label is the node tuple of a hyperedge (directed: a side / the pair), mostly isolated
+        c = rng.choice(combo)
+        if directed:
+            t = rng.choice([tuple(lab_sorted[i] for i in c[0]), tuple(lab_sorted[i] for i in c[1]),
+                            (tuple(lab_sorted[i] for i in c[0]), tuple(lab_sorted[i] for i in c[1]))])
+        else:
+            t = tuple(lab_sorted[i] for i in c)
+        if t not in lab_sorted:
+            groups.append([t])
+            extra = [t]
+    U = with_spares(groups)
     if directed:
         edges = [(tuple(rng.sample([lab_sorted[i] for i in e[0]], len(e[0]))),
                   tuple(rng.sample([lab_sorted[i] for i in e[1]], len(e[1])))) for e in combo]
-        return {"kind": "d", "nodes": rng.sample(lab_sorted, universe), "edges": edges, "labels": lab_sorted}
+        if extra and rng.random() < 0.4:
+            edges.insert(rng.randint(0, len(edges)), ((extra[0],), (rng.choice(lab_sorted),)))
+        return {"kind": "d", "nodes": rng.sample(lab_sorted + extra, universe + len(extra)), "edges": edges, "U": U}
     edges = [tuple(rng.sample([lab_sorted[i] for i in e], len(e))) for e in combo]
-    return {"kind": "u", "nodes": rng.sample(lab_sorted, universe), "edges": edges, "labels": lab_sorted}
+    if extra and rng.random() < 0.4:
+        edges.insert(rng.randint(0, len(edges)), (extra[0],))
+    return {"kind": "u", "nodes": rng.sample(lab_sorted + extra, universe + len(extra)), "edges": edges, "U": U}
 
 
 # ------------------------------------------------------------------------------------------
 # generators: histories
 
 class Prog:
-    def __init__(self, kind):
-        self.kind, self.ops, self.T = kind, [], {}
+    """a program under construction: ops are tracked with the labels as objects and recorded with every label in an
+    encoded presentation of its own (`present`)"""
+
+    def __init__(self, kind, rng, alts):
+        self.kind, self.ops, self.T, self.rng, self.alts = kind, [], {}, rng, alts
 
     def do(self, *op):
         op = list(op)
         track(self.T, self.kind, op)
-        self.ops.append(op)
+        self.ops.append(map_op(op, self.kind, lambda x: present(self.rng, x, self.alts)))
 
 
-def new_edge(rng, kind, have, pool, like=None):
-    """a hyperedge over `pool` that is not in `have` (canonical forms); `like`: same shape as this one"""
-    pool = list(pool)
+def new_edge(rng, kind, have, groups, like=None):
+    """a hyperedge whose nodes (directed: each side's nodes) come from one of `groups`, not in `have` (canonical forms);
+    `like`: same shape as this one and from the same groups"""
+    groups = [list(g) for g in groups if g]
+    if not groups:
+        return None
     for _ in range(30):
         if kind == "d":
             a, b = (len(like[0]), len(like[1])) if like is not None else (rng.randint(1, 3), rng.randint(1, 3))
-            if a + b > len(pool) or a == 0 or b == 0:
+            g1 = (group_with(groups, like[0][0]) if like is not None and like[0] else None) or pick_group(rng, groups)
+            g2 = (group_with(groups, like[1][0]) if like is not None and like[1] else None) or \
+                (g1 if rng.random() < 0.7 else pick_group(rng, groups))
+            if a == 0 or b == 0:
                 a, b = 1, 1
-            if len(pool) < 2:
-                return None
-            pick = rng.sample(pool, a + b)
-            e = (tuple(pick[:a]), tuple(pick[a:]))
+            if g1 is g2:
+                if len(g1) < 2:
+                    continue
+                if a + b > len(g1):
+                    a, b = 1, 1
+                pick = rng.sample(g1, a + b)
+                e = (tuple(pick[:a]), tuple(pick[a:]))
+            else:
+                e = (tuple(rng.sample(g1, min(a, len(g1)))), tuple(rng.sample(g2, min(b, len(g2)))))
         else:
+            g = (group_with(groups, like[0]) if like is not None and like else None) or pick_group(rng, groups)
             k = len(like) if like is not None else rng.choice([1, 2, 2, 3, 3, 4, 5])
-            k = max(1, min(k, len(pool)))
-            if not pool:
-                return None
-            e = tuple(rng.sample(pool, k))
+            k = max(1, min(k, len(g)))
+            e = tuple(rng.sample(g, k))
         if canon_edge(kind, e) not in have:
             return e
     return None
 
 
-def gen_edit(rng, P, X, pool, spare, must_remove=False):
+def restrict(groups, present_nodes):
+    return [[x for x in g if x in present_nodes] for g in groups]
+
+
+def gen_edit(rng, P, X, U, must_remove=False):
     """one edit of object X (one to three ops), valid for its tracked content"""
     kind, T = P.kind, P.T[X]
-    E = sorted(T.edges)
-    N = sorted(T.nodes)
+    E = osorted(T.edges)
+    N = osorted(T.nodes)
+    everything = [u["g"] + u["spare"] for u in U]
     choices = []
     if E:
         choices += ["rm", "rm", "replace", "readd", "rmnode", "rmnode_keep"] + ([] if must_remove else ["again"])
@@ -989,20 +1523,20 @@ def gen_edit(rng, P, X, pool, spare, must_remove=False):
         return P.do("edge", X, e)
     if m == "replace":       # node and hyperedge counts stay what they were
         e = rng.choice(E)
-        f = new_edge(rng, kind, T.edges, N, like=e)
+        f = new_edge(rng, kind, T.edges, restrict(everything, T.nodes), like=e)
         P.do("rm", X, e)
         if f is not None:
             P.do("edge", X, f)
         return
     if m == "node":
-        free = [x for x in list(pool) + list(spare) if x not in T.nodes]
+        free = [x for g in everything for x in g if x not in T.nodes]
         if free:
             return P.do("node", X, rng.choice(free))
         m = "edge"
     if m == "clear":
         P.do("clear", X)
         m = "edges"
-    full = list(pool) + list(spare[:1])
+    full = [u["g"] + u["spare"][:1] for u in U]
     f = new_edge(rng, kind, P.T[X].edges, full)
     if f is None:
         return
@@ -1015,7 +1549,7 @@ def gen_edit(rng, P, X, pool, spare, must_remove=False):
     return P.do("edge", X, f)
 
 
-def build(rng, P, X, nodes, edges, pool, style):
+def build(rng, P, X, nodes, edges, U, style):
     kind = P.kind
     edges = list(edges)
     if style == "ctor":
@@ -1029,7 +1563,7 @@ def build(rng, P, X, nodes, edges, pool, style):
         return
     if style == "detour" and edges:
         # a removed temporary hyperedge (ids get a gap) and a removal + re-insertion (the hyperedge moves to the end)
-        temp = new_edge(rng, kind, {canon_edge(kind, e) for e in edges}, pool)
+        temp = new_edge(rng, kind, {canon_edge(kind, e) for e in edges}, [u["g"] for u in U])
         if temp is not None:
             P.do("edge", X, temp)
         P.do("edges", X, edges)
@@ -1045,7 +1579,7 @@ def derive(rng, P, Y, X, exact=False):
     """object Y from object X: copy(), subhypergraph(all nodes / some nodes), get_edges(size=k, subhypergraph=True);
     `exact`: only the ways that give Y the whole content of X"""
     kind, T = P.kind, P.T[X]
-    N = sorted(T.nodes)
+    N = osorted(T.nodes)
     how = rng.random()
     if how < 0.5 or (exact and kind == "d" and how < 0.8):
         return P.do("copy", Y, X)
@@ -1065,34 +1599,41 @@ ROUTES_SMALL = ["plain"] * 11 + ["detour"] * 2 + ["copy"] * 3 + ["copied"] * 2 +
 
 def make_case(rng, base, route):
     """program whose (last) projection of object A sees the content `base` when the route is not 'events'"""
-    kind, nodes, edges, labels = base["kind"], base["nodes"], base["edges"], base["labels"]
-    spare = spare_labels(labels)
+    kind, nodes, edges, U = base["kind"], base["nodes"], base["edges"], base["U"]
+    spare = [x for u in U for x in u["spare"][:1]]
     weighted = rng.random() < 0.15
-    P = Prog(kind)
+    alts = rng.choice(ALTS)
+    if any(isinstance(x, (tuple, frozenset)) or (isinstance(x, (int, float)) and 2 ** 53 <= abs(x) < float("inf"))
+           for u in U for x in u["g"] + u["spare"]):
+        # numpy scalars broadcast `==` over tuples (np.int64(1) == (1, 2) is an array) and compare with Python ints after
+        # rounding them to float64 (np.float64(2**63) == 2**63 + 1): not usable as labels next to tuple labels / huge ints,
+        # in any Python container
+        alts = [a for a in alts if a != "np"]
+    P = Prog(kind, rng, alts)
     style = rng.choice(["batch", "batch", "ctor", "single", "detour"])
     if route in ("plain", "detour") or not edges:
-        build(rng, P, "A", nodes, edges, labels, "detour" if route == "detour" else rng.choice(["batch", "batch", "ctor", "single"]))
+        build(rng, P, "A", nodes, edges, U, "detour" if route == "detour" else rng.choice(["batch", "batch", "ctor", "single"]))
         P.do("project", "A")
     elif route == "copy":
         # A is the ORIGINAL of a copy (or of a sub-hypergraph) that is edited afterwards
-        build(rng, P, "A", nodes, edges, labels, style)
+        build(rng, P, "A", nodes, edges, U, style)
         if rng.random() < 0.3:
             P.do("project", "A")
         derive(rng, P, "B", "A")
-        gen_edit(rng, P, "B", labels, spare, must_remove=True)
+        gen_edit(rng, P, "B", U, must_remove=True)
         for _ in range(rng.randint(0, 2)):
-            gen_edit(rng, P, "B", labels, spare)
+            gen_edit(rng, P, "B", U)
         P.do("project", "A")
         P.do("project", "B")
     elif route == "copied":
         # A is the COPY (or the full sub-hypergraph) of an original that is edited afterwards
-        build(rng, P, "O", nodes, edges, labels, style)
+        build(rng, P, "O", nodes, edges, U, style)
         if rng.random() < 0.3:
             P.do("project", "O")
         derive(rng, P, "A", "O", exact=True)
-        gen_edit(rng, P, "O", labels, spare, must_remove=True)
+        gen_edit(rng, P, "O", U, must_remove=True)
         for _ in range(rng.randint(0, 2)):
-            gen_edit(rng, P, "O", labels, spare)
+            gen_edit(rng, P, "O", U)
         P.do("project", "A")
         P.do("project", "O")
     elif route == "reproject":
@@ -1102,27 +1643,29 @@ def make_case(rng, base, route):
         if r < 0.15 and iso:
             # only the node set changes: an isolated node arrives between the two projections
             x = rng.choice(iso)
-            build(rng, P, "A", [y for y in nodes if y != x], edges, labels, style)
+            build(rng, P, "A", [y for y in nodes if y != x], edges, U, style)
             P.do("project", "A")
             P.do("node", "A", x)
         elif r < 0.3:
             # only the node set changes: an isolated node leaves between the two projections
-            build(rng, P, "A", list(nodes) + spare[:1], edges, labels, style)
+            sp = rng.choice(spare)
+            build(rng, P, "A", list(nodes) + [sp], edges, U, style)
             P.do("project", "A")
-            P.do("rmnode", "A", spare[0], rng.random() < 0.5)
+            P.do("rmnode", "A", sp, rng.random() < 0.5)
         else:
             i = rng.randrange(len(edges))
-            present = sorted(set(nodes) | {x for e in edges for x in members(kind, e)})
-            f = new_edge(rng, kind, {canon_edge(kind, e) for e in edges}, present, like=edges[i])
+            present_nodes = set(nodes) | {x for e in edges for x in members(kind, e)}
+            f = new_edge(rng, kind, {canon_edge(kind, e) for e in edges}, restrict([u["g"] for u in U], present_nodes),
+                         like=edges[i])
             first = edges[:i] + ([f] if f is not None else []) + edges[i + 1:]
-            build(rng, P, "A", nodes, first, labels, style)
+            build(rng, P, "A", nodes, first, U, style)
             P.do("project", "A")
             if f is not None:
                 P.do("rm", "A", f)
             P.do("edge", "A", edges[i])
         P.do("project", "A")
     else:
-        build(rng, P, "A", nodes, edges, labels, style)
+        build(rng, P, "A", nodes, edges, U, style)
         objs = ["A"]
         for _ in range(rng.randint(1, 5)):
             X = rng.choice(objs)
@@ -1135,10 +1678,10 @@ def make_case(rng, base, route):
                 P.do("project", X)
             else:
                 for _ in range(rng.randint(1, 2)):
-                    gen_edit(rng, P, X, labels, spare)
+                    gen_edit(rng, P, X, U)
         for X in objs:
             P.do("project", X)
-    return {"kind": kind, "weighted": weighted, "route": route, "prog": P.ops}
+    return {"kind": kind, "weighted": weighted, "route": route, "alts": alts, "prog": P.ops}
 
 
 def low(ctx, reserve=5):
@@ -1155,7 +1698,16 @@ def run(ctx):
                  {"kind": "u", "nodes": [], "edges": [(5,)]},
                  {"kind": "u", "nodes": ["b"], "edges": [("c", "a"), ("a",), ("c",)]},
                  {"kind": "d", "nodes": [], "edges": []},
-                 {"kind": "d", "nodes": [4], "edges": [((2,), (1,))]}]:
+                 {"kind": "d", "nodes": [4], "edges": [((2,), (1,))]},
+                 # a node labelled by the node tuple of a hyperedge, isolated / member of a later / an earlier hyperedge
+                 {"kind": "u", "nodes": [1, 2, {"t": [1, 2]}], "edges": [(1, 2)]},
+                 {"kind": "u", "nodes": [], "edges": [(1, 2), ({"t": [1, 2]}, {"t": [3, 4]})]},
+                 {"kind": "u", "nodes": [], "edges": [({"t": [1, 2]}, {"t": [3, 4]}), (2, 1), ({"t": [1, 2]},)]},
+                 {"kind": "u", "nodes": [{"t": ["N0", "a"]}, "E0"], "edges": [("a", "N0"), ("E0", "N0")]},
+                 {"kind": "d", "nodes": [{"t": [2]}, {"t": [{"t": [2]}, {"t": [1]}]}], "edges": [((2,), (1,)), (({"t": [2]},), (2,))]},
+                 # labels with equal hashes (hash(-1) == hash(-2)), a string that reads like a tuple, 1 and '1'
+                 {"kind": "u", "nodes": ["(1, 2)", "1"], "edges": [(-1, 3), (-2, 3), (-1,), (-2,), (1, 2)]},
+                 {"kind": "d", "nodes": ["1"], "edges": [((-1,), (3,)), ((-2,), (3,)), ((3,), (-1, 1)), ((3,), (-2, 1))]}]:
         check_case(ctx, drv, case)
     # random larger inputs
     for _ in range(ctx.scale(400, 1500)):
